@@ -87,6 +87,12 @@ func sourceForTable(query *sql.Query, opts *Opts) (core.RowSource, error) {
 		if err != nil {
 			return nil, err
 		}
+		// Remember how the select list resolved against the complete table.
+		// Only the table fields that are needed are read, and resolving the
+		// select list again against that reduced list gives a different meaning
+		// to a name whose table field was not included (it becomes a plain
+		// SUM over an input of that name).
+		query.Fields = &resolvedFieldSource{query.Fields, fields}
 		for _, field := range fields {
 			sms := field.Expr.SubMergers(tableExprs)
 			for i, sm := range sms {
@@ -105,6 +111,17 @@ func sourceForTable(query *sql.Query, opts *Opts) (core.RowSource, error) {
 
 		return result, nil
 	})
+}
+
+// resolvedFieldSource is a FieldSource whose fields have already been
+// resolved. It still prints like the FieldSource it was resolved from.
+type resolvedFieldSource struct {
+	core.FieldSource
+	fields core.Fields
+}
+
+func (r *resolvedFieldSource) Get(known core.Fields) (core.Fields, error) {
+	return r.fields, nil
 }
 
 func asOfUntilFor(query *sql.Query, opts *Opts, source core.RowSource, now time.Time) (time.Time, bool, time.Time, bool) {
